@@ -238,6 +238,40 @@ def parse_checks(val):
                                                   val or "")}
 
 
+def coq_longname_cases(obs):
+    """[(description, coq term, expected value string)] for every tensor /
+    delta object of the observed terms: Gallina longname vs Obj.longname()"""
+    from adcgen.sympy_objects import (Amplitude, NonSymmetricTensor,
+                                      AntiSymmetricTensor, KroneckerDelta)
+    ictx = adcio.IdxCtx()
+    out = []
+    for _, terms in (obs.blocks or []):
+        for t in terms:
+            for o in t.objects:
+                b = o.base
+                if isinstance(b, NonSymmetricTensor):
+                    lit = (f"(LTens false {coq_str(b.name)} "
+                           f"{coq_idx_list(ictx, b.indices)} [])")
+                elif isinstance(b, AntiSymmetricTensor):
+                    amp = "true" if isinstance(b, Amplitude) else "false"
+                    lit = (f"(LTens {amp} {coq_str(b.name)} "
+                           f"{coq_idx_list(ictx, b.upper)} "
+                           f"{coq_idx_list(ictx, b.lower)})")
+                elif isinstance(b, KroneckerDelta):
+                    lit = (f"(LDelta {ictx.conv(b.args[0]).coq()} "
+                           f"{ictx.conv(b.args[1]).coq()})")
+                else:
+                    continue
+                try:
+                    want = f'Ok "{o.longname()}"'
+                except NotImplementedError:
+                    want = "Refuse"
+                except Exception:
+                    want = "Crash"
+                out.append((str(o), f"longname {coq_tnames()} {lit}", want))
+    return out
+
+
 def expected_verdict(obs):
     return {"ok": '"same"', "refuse": '"REFUSE"', "crash": '"CRASH"'}[
         obs.outcome]
